@@ -212,7 +212,8 @@ def retype : PyVal → PyVal
   | .dict kvs => .dict (setKw "type" (.str "object") kvs)
   | other => other
 
-/-- `structure_to_schema(cls)` given the schemas of the fields (in `get_all_fields_by_name` order) -/
+/-- `structure_to_schema(cls)` at top level (`allow_field_wrapper=True`) given the schemas of the
+    fields (in `get_all_fields_by_name` order); nested structures use `classObj` directly -/
 def structShape (c : ClassOpts) (defaults : List (String × PyVal)) (fields : List (String × PyVal)) : PyVal :=
   if collapses c (fields.map (·.1)) then
     (match fields with
@@ -241,7 +242,8 @@ def emit (fx : Bool) : FieldDecl → PyVal
   | .mapAny sz => .dict (mapKws none none sz)
   | .mapOf k v sz => .dict (mapKws (some k) (some (emit fx v)) sz)
   | .struct c fields defaults =>
-    if c.inline then retype (structShape c defaults (emitP fx fields)) else refTo c.name
+    -- a nested structure is always exported as an object (`allow_field_wrapper=False`)
+    if c.inline then retype (classObj c defaults (emitP fx fields)) else refTo c.name
   | .anyOf fs => anyOfShape fs (emitL fx fs)
   | .oneOf fs => .dict [kw "oneOf" (.list (emitL fx fs))]
   | .allOf fs => .dict [kw "allOf" (.list (emitL fx fs))]
@@ -322,7 +324,7 @@ def defsAcc (fx : Bool) : FieldDecl → Defs → Defs
   | .mapOf _ v _, D => defsAcc fx v D
   | .struct c fields defaults, D =>
     if c.inline then defsAccP fx fields D
-    else assocSet c.name (structShape c defaults (emitP fx fields)) (defsAccP fx fields D)
+    else assocSet c.name (classObj c defaults (emitP fx fields)) (defsAccP fx fields D)
   | .anyOf fs, D => defsAccL fx fs D
   | .oneOf fs, D => defsAccL fx fs D
   | .allOf fs, D => defsAccL fx fs D
